@@ -147,6 +147,11 @@ def _more_models(ctx, first, k):
 
 
 def _region_expr(r, ctx):
+    if r.get('region_fn'):
+        # "module:function" -> z3 predicate over the symbolic inputs
+        import importlib
+        mod, fn = r['region_fn'].split(':')
+        return getattr(importlib.import_module(mod), fn)(ctx.inputs)
     expr = r.get('region', 'True')
     env = {'And': z3.And, 'Or': z3.Or, 'Not': z3.Not, 'If': z3.If,
            'True': z3.BoolVal(True), 'False': z3.BoolVal(False)}
